@@ -39,6 +39,8 @@ func main() {
 	switch fam {
 	case "plan":
 		stats = famPlan(tr, *scratch, *seed, *tier, *workers)
+	case "config":
+		stats = famConfig(tr, *scratch, *seed, *tier, *workers, *profile)
 	case "pkg":
 		stats = famPkg(tr, *scratch, *seed, *tier, *workers, *profile)
 	default:
